@@ -316,4 +316,35 @@ def classify(rule, detail, plan):
                 pend = []
             if m.group(1) in pend:
                 return "C14-pending-delayed-events-not-in-snapshot"
+        # the lost event may carry the name of a later harness event, which then fills its place and moves the first visible
+        # difference further down: decide by identity - did the original run, after the snapshot, process a delayed event
+        # (same uuid) that was pending when the snapshot was taken?  Then the resumed run cannot be equal.
+        if p and p.group(1) != "[]" and plan.get("only_snapshot") is not None:
+            u = usimlib.Usim(FLAVOUR)
+            try:
+                res = u.run({k_: v_ for k_, v_ in plan.items() if k_ != "only_snapshot"})
+            finally:
+                u.kill()
+            if not res.failed_hard():
+                snaps = snapshots_of(res)
+                n = plan["only_snapshot"]
+                if n < len(snaps):
+                    seq = snaps[n][0]
+                    b = Bindings(res.lines)
+                    dq, eq = b.dly.get("i0"), b.ext.get("i0")
+                    pend_uuid = set()
+                    for r in res.lines:
+                        if r[SEQ] > seq:
+                            break
+                        if r[KIND] == "dly<" and r[SESS] == dq:
+                            pend_uuid.add(r[7])
+                        elif r[KIND] == "cnl>" and r[SESS] == dq:
+                            pend_uuid.discard(r[5])
+                        elif r[KIND] == "cna>" and r[SESS] == dq:
+                            pend_uuid.clear()
+                        elif r[KIND] == "enq<" and r[SESS] in (eq, b.int.get("i0")) and len(r) > 7:
+                            pend_uuid.discard(r[7])
+                    for r in res.lines:
+                        if r[SEQ] > seq and r[KIND] == "ev" and r[SESS] == "i0" and len(r) > 6 and r[6] in pend_uuid:
+                            return "C14-pending-delayed-events-not-in-snapshot"
     return None
